@@ -22,6 +22,65 @@ use packing::{
     BuildOptimiser, LJShape2, LineShape, MolecularShape2, PackedState2, PotentialState2,
 };
 
+/// Verification hooks, compiled only with `--cfg packing_verif`. They record which replica ran
+/// which stage on which thread with which score, and can delay the start of a stage.
+#[cfg(packing_verif)]
+mod verif_hook {
+    use std::fs::{File, OpenOptions};
+    use std::io::Write;
+    use std::sync::atomic::{AtomicU64, Ordering};
+    use std::sync::Mutex;
+
+    static SEQ: AtomicU64 = AtomicU64::new(0);
+    static LOG: Mutex<Option<File>> = Mutex::new(None);
+
+    fn jitter(index: i64, stage: u8) {
+        if let Some(seed) = std::env::var("PACKING_VERIF_JITTER")
+            .ok()
+            .and_then(|s| s.parse::<u64>().ok())
+        {
+            let mut z = seed
+                .wrapping_mul(0x9E37_79B9_7F4A_7C15)
+                .wrapping_add((index as u64).wrapping_mul(0xBF58_476D_1CE4_E5B9))
+                .wrapping_add(stage as u64);
+            z = (z ^ (z >> 30)).wrapping_mul(0xBF58_476D_1CE4_E5B9);
+            z = (z ^ (z >> 27)).wrapping_mul(0x94D0_49BB_1331_11EB);
+            z ^= z >> 31;
+            std::thread::sleep(std::time::Duration::from_micros(z % 2000));
+        }
+    }
+
+    pub fn event(kind: &str, index: i64, stage: u8, score: Option<f64>) {
+        jitter(index, stage);
+        let path = match std::env::var_os("PACKING_VERIF_LOG") {
+            Some(p) => p,
+            None => return,
+        };
+        let seq = SEQ.fetch_add(1, Ordering::SeqCst);
+        let score = match score {
+            Some(s) if s.is_finite() => format!("{:?}", s),
+            Some(s) => format!("\"{:?}\"", s),
+            None => String::from("null"),
+        };
+        let line = format!(
+            "{{\"seq\":{},\"kind\":\"{}\",\"replica\":{},\"stage\":{},\"thread\":{},\"score\":{}}}\n",
+            seq,
+            kind,
+            index,
+            stage,
+            rayon::current_thread_index().map_or(-1, |i| i as i64),
+            score,
+        );
+        let mut log = LOG.lock().unwrap();
+        if log.is_none() {
+            *log = OpenOptions::new().create(true).append(true).open(path).ok();
+        }
+        if let Some(file) = log.as_mut() {
+            let _ = file.write_all(line.as_bytes());
+        }
+    }
+}
+
 arg_enum! {
     #[derive(Debug)]
     enum Force {
@@ -101,6 +160,8 @@ fn analyse_state(
         .into_par_iter()
         // Create collection of quickly optimised initial states
         .map(|index| {
+            #[cfg(packing_verif)]
+            verif_hook::event("stage", index as i64, 1, state.score());
             let result = optimiser
                 .clone()
                 .steps(1000)
@@ -113,6 +174,8 @@ fn analyse_state(
         })
         // Perform Monte carlo optimisation
         .map(|(index, opt_state)| {
+            #[cfg(packing_verif)]
+            verif_hook::event("stage", index as i64, 2, opt_state.score());
             let result = optimiser
                 .clone()
                 .seed(index)
@@ -122,12 +185,19 @@ fn analyse_state(
         })
         // Final optimsation to help find the minimum
         .map(|(index, opt_state)| {
+            #[cfg(packing_verif)]
+            verif_hook::event("stage", index as i64, 3, opt_state.score());
             optimiser
                 .clone()
                 .kt_start(0.)
                 .seed(index)
                 .build()
                 .optimise_state(opt_state)
+        })
+        .map(|final_state| {
+            #[cfg(packing_verif)]
+            verif_hook::event("done", -1, 4, final_state.score());
+            final_state
         })
         .max()
         .ok_or_else(|| anyhow!("Error in running optimisation."))?;
